@@ -23,6 +23,7 @@ EXPLANATION = (
     "receives the raw parameter; (R3) the naming scheme of the expansion agrees between writer and reader: 'v.0','v.1' suffixes, "
     "(u,v) -> (u.1, v.0), starts map to the .0 endpoint and ends to the .1 endpoint, the reader strips exactly the suffix length with "
     "step 2, edge-list constraints get the head node of their *last* edge, every original-edge copy and every node without the "
+    "(R5) the searches over k of the node-capable wrappers are bounded by the size of the model graph (the expanded one), not of the caller's graph.  "
     "attribute is appended to the ignore list; (R4) no `+` between an int-returning builtin and a str.  NOT decided: equality of "
     "solved status and objective with the explicit expansion."
 )
